@@ -718,12 +718,13 @@ Definition mWin (c : cfg) (p : N) : nat := ftot (fun th => sum_fr (win_fr p) (th
 Definition mPw (c : cfg) (p : N) : nat := ftot (fun th => sum_fr (pw_fr p) (th_stk th)) (c_th c).
 
 (* the owner is between the flag reset of _mi_free_delayed_block and the take-over of the thread list *)
+Definition below_dp6 (r : list frame) : bool := match r with DP6 _ _ _ _ :: _ => true | _ => false end.
+Definition below_fc2_dp6 (r : list frame) : bool := match r with FC2 _ false :: r' => below_dp6 r' | _ => false end.
 Definition ph_stk (p : N) (ret : bool) (stk : list frame) : nat :=
   match stk with
   | DP4 _ b _ _ :: _ => if ret && (fst b =? p) then 1 else 0
-  | FC1 q false :: DP6 _ _ _ _ :: _ => if q =? p then 1 else 0
-  | TC1 q :: FC2 _ false :: DP6 _ _ _ _ :: _ => if q =? p then 1 else 0
-  | TC2 q _ _ :: FC2 _ false :: DP6 _ _ _ _ :: _ => if q =? p then 1 else 0
+  | FC1 q false :: r => if (q =? p) && below_dp6 r then 1 else 0
+  | TC1 q :: r | TC2 q _ _ :: r => if (q =? p) && below_fc2_dp6 r then 1 else 0
   | _ => 0
   end%nat.
 Definition mPh (c : cfg) (p : N) : nat := ftot (fun th => ph_stk p (th_ret th) (th_stk th)) (c_th c).
@@ -849,8 +850,9 @@ Definition fr_ok (c : cfg) (t : N) (th : thread) (fr : frame) : bool :=
   match fr with
   | TC1 p | TC2 p _ _ | FC1 p _ | FC2 p _ => own (getp c p) t
   | HC4 h _ p _ => own (getp c p) t && hown (geth c h) t
-  | TU1 p d _ _ _ => own (getp c p) t && negb (flag_eqb d Freeing) && negb (flag_eqb d NoD)
-  | TU2 p d _ _ _ f _ => own (getp c p) t && negb (flag_eqb d Freeing) && negb (flag_eqb d NoD) && negb (flag_eqb f Freeing)
+  | TU1 p d ovr _ _ => own (getp c p) t && negb (flag_eqb d Freeing) && negb (flag_eqb d NoD) && negb ovr
+  | TU2 p d ovr _ _ f _ => own (getp c p) t && negb (flag_eqb d Freeing) && negb (flag_eqb d NoD) && negb ovr
+                          && negb (flag_eqb f Freeing) && negb (flag_eqb d f) && negb (flag_eqb f NeverD)
   | TC3 p tl => own (getp c p) t && forallb (onp p) tl
   | PF p => own (getp c p) t && (pg_used (getp c p) =? 0)
   | DP1 h | DP2 h _ | DA h | HC2 h _ | HC3 h _ _ => hown (geth c h) t
